@@ -255,6 +255,14 @@ func (x *Exprer) compute(v ssa.Value) *Expr {
 	case *ssa.Index:
 		return mk("index", "", v, x.E(v.X), x.E(v.Index))
 	case *ssa.Lookup:
+		// membership in a set kept as map[K]bool (m[k]) or map[K]struct{} (_, ok := m[k]) is the same question
+		if mt, ok := v.X.Type().Underlying().(*types.Map); ok && isSetValue(mt.Elem()) {
+			if !v.CommaOk {
+				if b, isB := mt.Elem().Underlying().(*types.Basic); isB && b.Info()&types.IsBoolean != 0 {
+					return mk("builtin", "has", v, x.E(v.X), x.E(v.Index))
+				}
+			}
+		}
 		return mk("index", "", v, x.E(v.X), x.E(v.Index))
 	case *ssa.UnOp:
 		switch v.Op {
@@ -293,6 +301,11 @@ func (x *Exprer) compute(v ssa.Value) *Expr {
 	case *ssa.TypeAssert:
 		return mk("assert", typeStr(v.AssertedType), v, x.E(v.X))
 	case *ssa.Extract:
+		if lk, ok := v.Tuple.(*ssa.Lookup); ok && lk.CommaOk && v.Index == 1 {
+			if mt, ok := lk.X.Type().Underlying().(*types.Map); ok && isSetValue(mt.Elem()) {
+				return mk("builtin", "has", v, x.E(lk.X), x.E(lk.Index))
+			}
+		}
 		return mk("extract", fmt.Sprint(v.Index), v, x.E(v.Tuple))
 	case *ssa.Call:
 		return x.callExpr(&v.Call, v)
@@ -349,6 +362,9 @@ func (x *Exprer) compute(v ssa.Value) *Expr {
 	case *ssa.MakeSlice:
 		return mk("make", "make("+typeStr(v.Type())+")", v)
 	case *ssa.MakeMap:
+		if mt, ok := v.Type().Underlying().(*types.Map); ok && isSetValue(mt.Elem()) {
+			return mk("make", "make(set["+typeStr(mt.Key())+"])", v)
+		}
 		return mk("make", "make("+typeStr(v.Type())+")", v)
 	case *ssa.MakeChan:
 		return mk("make", "make("+typeStr(v.Type())+")", v)
@@ -871,6 +887,13 @@ func canonBin0(op token.Token, a, b *Expr, v ssa.Value) *Expr {
 			}
 			return negate(a)
 		}
+		// s == "" is len(s) == 0
+		if b.Op == "const" && b.Name == `""` {
+			return mk("bin", name, v, mk("lin", "0", nil), mk("lin", "len("+a.String()+")", nil))
+		}
+		if a.Op == "const" && a.Name == `""` {
+			return mk("bin", name, v, mk("lin", "0", nil), mk("lin", "len("+b.String()+")", nil))
+		}
 		// x.Cmp(y) ⋄ 0 is a comparison of x and y
 		isCmpCall := func(c *Expr) bool {
 			return c.Op == "call" && (strings.HasSuffix(c.Name, ").Cmp") || strings.HasSuffix(c.Name, "bytes.Compare")) && len(c.Args) == 2
@@ -1110,4 +1133,15 @@ func (p *Program) trivialGetter(fn *ssa.Function) bool {
 	}
 	p.trivial[fn] = ok
 	return ok
+}
+
+// isSetValue: the element type of a map used as a set (bool or empty struct).
+func isSetValue(t types.Type) bool {
+	switch u := t.Underlying().(type) {
+	case *types.Basic:
+		return u.Info()&types.IsBoolean != 0
+	case *types.Struct:
+		return u.NumFields() == 0
+	}
+	return false
 }
